@@ -329,6 +329,16 @@ def c_tablehistory(ctx, case):
     except Exception as ex:  # noqa: BLE001
         ctx.fail("C08.tablehistory", case, f"raised:{type(ex).__name__}", f"{G.src(e)} {_m(d)}: {ex}")
         return
+    # ... and a use that FAILS half-way (an object no mapper accepts beneath the expression,
+    # keyword assignments on top of the table) is caught by the caller: the table is as it was
+    bad = p.Sum((e, p.Product((p.Variable("x"), object()))))
+    for kwargs in ({"y": 100, "z": p.Sum((p.Variable("z"), 1))}, {"x": p.Variable("y")}, {}):
+        try:
+            substitute(bad, d, **kwargs)
+        except RecursionError:
+            raise
+        except Exception:  # noqa: BLE001
+            ctx.count("failed_substitutions_before_the_next_use")
     same_keys = list(d.keys()) == list(before.keys()) and all(d[k] is before[k] for k in before)
     if not same_keys:
         ctx.fail("C08.tablehistory", case, "table-modified",
@@ -653,6 +663,7 @@ def workload(ctx):
             ctx.count("handler:" + k, v)
     ctx.floor("stream:rows", 500)
     ctx.floor("multivector_substitutions", 200)
+    ctx.floor("failed_substitutions_before_the_next_use", 100)
     ctx.floor("reentrant_substitutions", 50)
     ctx.floor("stream:row_address_reused", 100)
     ctx.count("replacement_values_of_special_kinds", sum(hist_kinds.values()))
